@@ -91,7 +91,7 @@ type World struct {
 	seq int
 }
 
-var pureFns = map[string]bool{"Nest": true, "CL": true, "Tup": true, "PtrM": true, "Ff": true, "CI": true, "CS": true, "CB": true, "C64": true, "OpA": true, "OpB": true}
+var pureFns = map[string]bool{"CP": true, "CN": true, "Nest": true, "CL": true, "Tup": true, "PtrM": true, "Ff": true, "CI": true, "CS": true, "CB": true, "C64": true, "OpA": true, "OpB": true}
 
 func NewWorld(stateful bool, faults []CallFault, poison []PoisonFault) *World {
 	return &World{Stateful: stateful, Phase: "run", faults: faults, poison: poison}
@@ -204,6 +204,8 @@ type Obj struct {
 	Name string
 	Xs   []int
 	Next *Obj
+	L    int64   // derived from V
+	F    float64 // derived from V
 }
 
 // Get has a pointer receiver, Twice a value receiver.
@@ -264,6 +266,8 @@ type Env struct {
 	Ob2 interface{}
 	// Pm: a pointer to a map.
 	Pm *map[string]int
+	// EmbP is an embedded pointer that is nil: PromV is promoted from it.
+	*EmbP
 	// Lvl (float64) is declared BEFORE the embedded struct whose Lvl (int) it shadows.
 	Lvl float64
 	Emb
@@ -370,6 +374,11 @@ func localObj(v int, name string) interface{} {
 	return Obj{Name: name, Pad: -1, V: v}
 }
 
+// EmbP is embedded in Env BY POINTER and left nil.
+type EmbP struct {
+	PromV int
+}
+
 // Emb is embedded in Env; its Lvl field is shadowed by Env.Lvl.
 type Emb struct {
 	Lvl  int
@@ -405,6 +414,20 @@ func (e Env) Nest(i int) int {
 		panic(err)
 	}
 	return out.(int)
+}
+
+// CP is pure; its parameter is nilable but not an interface.
+func (e Env) CP(p *Obj) bool {
+	_, _ = e.w.enter("CP", p)
+	defer e.w.leave("CP")
+	return p == nil
+}
+
+// CN is pure and returns a nil interface.
+func (e Env) CN(i int) interface{} {
+	_, _ = e.w.enter("CN", i)
+	defer e.w.leave("CN")
+	return nil
 }
 
 // PtrM has a pointer receiver: it exists for *Env (and the map), not for Env.
@@ -550,7 +573,7 @@ func buildObj(w *World, d *ObjData) *Obj {
 	if d == nil {
 		return nil
 	}
-	return &Obj{w: w, V: d.V, Name: d.Name, Xs: cloneInts(d.Xs), Next: buildObj(w, d.Next)}
+	return &Obj{w: w, V: d.V, Name: d.Name, Xs: cloneInts(d.Xs), Next: buildObj(w, d.Next), L: int64(d.V) * 3, F: float64(d.V) + 0.5}
 }
 
 // BuildEnv makes a fresh environment value (sharing nothing with any other)
@@ -597,6 +620,27 @@ func BuildEnv(w *World, d *EnvData) *Env {
 	return e
 }
 
+// rebind points the environment (and the objects it owns) at another world:
+// the caller's long-lived environment object journals each run separately.
+func (e *Env) rebind(w *World) {
+	e.w = w
+	for _, o := range []*Obj{e.O, e.O2, e.On} {
+		for p := o; p != nil; p = p.Next {
+			p.w = w
+		}
+	}
+	for _, o := range e.Objs {
+		if o != nil {
+			o.w = w
+		}
+	}
+	e.Fn = func(a int) int {
+		idx, _ := w.enter("Fn", a)
+		defer w.leave("Fn")
+		return small(a*2-5) + w.salt(idx)
+	}
+}
+
 // Env representations the library accepts.
 const (
 	RepStruct = "struct"
@@ -617,7 +661,7 @@ func (e *Env) AsRep(rep string) interface{} {
 			"P": e.P, "Q": e.Q, "S": e.S, "T": e.T, "Re": e.Re,
 			"Xs": e.Xs, "Ys": e.Ys, "Ss": e.Ss, "Mp": e.Mp, "O": e.O, "On": e.On, "Any": e.Any,
 			"Fn": e.Fn, "Objs": e.Objs,
-			"O2": e.O2, "Ob2": e.Ob2, "Nest": e.Nest, "Pm": e.Pm, "Lvl": e.Lvl, "EmbV": e.EmbV, "Info": e.Info, "Index": e.Index, "info": e.Info, "index": e.Index, "CL": e.CL, "Tup": e.Tup, "PtrM": e.PtrM,
+			"CP": e.CP, "CN": e.CN, "O2": e.O2, "Ob2": e.Ob2, "Nest": e.Nest, "Pm": e.Pm, "Lvl": e.Lvl, "EmbV": e.EmbV, "Info": e.Info, "Index": e.Index, "info": e.Info, "index": e.Index, "CL": e.CL, "Tup": e.Tup, "PtrM": e.PtrM,
 			"U8": e.U8, "U16": e.U16, "I8": e.I8, "I64": e.I64, "F64": e.F64, "F32": e.F32, "Ff": e.Ff,
 			"F1": e.F1, "F2": e.F2, "G0": e.G0, "P1": e.P1, "S1": e.S1, "Mk": e.Mk, "Va": e.Va,
 			"An": e.An, "OpA": e.OpA, "OpB": e.OpB, "C64": e.C64, "CI": e.CI, "CS": e.CS, "CB": e.CB,
